@@ -122,10 +122,14 @@ func (c *cacheParams) commit(ctx sdk.Context, k common.KeeperOracle) {
 		if b+uint64(common.MaxNonce) >= block {
 			break
 		}
-		k.RemoveRecentParams(ctx, b)
 	}
-	if i > 0 && i == len(index.Index) {
+	// index.Index[:i] are older than the replay window; the newest of them holds the params that are in force
+	// when the window begins, so it stays (in the index and in the store) and only the ones before it are removed
+	if i > 0 {
 		i--
+	}
+	for _, b := range index.Index[:i] {
+		k.RemoveRecentParams(ctx, b)
 	}
 	index.Index = index.Index[i:]
 	// remove and append for KVStore
